@@ -18,6 +18,7 @@ import (
 
 	"github.com/anishathalye/porcupine"
 	wt "github.com/hnakamur/whispertool"
+	wcmd "github.com/hnakamur/whispertool/cmd"
 
 	"verif/fw"
 	"verif/vrt"
@@ -37,7 +38,7 @@ func init() {
 		Rule: "states = complete executions (distinct schedules) explored by depth-first search over scheduler choices; transitions = scheduling points executed; traces_validated_against_impl = executions whose observation satisfied the oracle (counter history linearizable, reader snapshot uniform, handle lifetimes disjoint). evaluations/failed_opens = failing Open/Create variants followed by a non-blocking lock probe.",
 		Assumptions: []string{"flock is arbitrated per open file description, so two handles in one process exercise what two processes exercise; a process-level hold test demonstrates it end to end", "scheduling points: flock, preadv/pwritev of the page buffer, its mutex, goroutine spawn; unsynchronised accesses between points are the race pass's business",
 			"the race-detector pass is a detector over free-running schedules, not an enumeration"},
-		NeedsInstr: []string{"whispertool:os.Getpagesize", "whispertool:syscall.Flock", "filebuffer:func preadvFull", "filebuffer:func pwritevFull", "filebuffer:import sync"},
+		NeedsInstr: []string{"whispertool:os.Getpagesize", "whispertool:syscall.Flock", "cmd:time.Now", "filebuffer:func preadvFull", "filebuffer:func pwritevFull", "filebuffer:import sync"},
 	})
 	fw.Children["c13hold"] = c13HoldChild
 	fw.Children["racepass"] = racePassChild
@@ -229,6 +230,11 @@ func c13Scenarios(c *fw.Ctx) []*Scenario {
 				}
 				ivs[i].openRet = vrt.Step()
 				vrt.Point("hold", nil)
+				// a write and a Sync in the middle of the handle's life: the lock must outlive them
+				db.UpdatePointForArchive(0, wt.Timestamp(c13Now), wt.Value(i+1), wt.Timestamp(c13Now))
+				db.Sync()
+				vrt.Point("hold", nil)
+				db.FetchFromArchive(2, wt.Timestamp(c13Now-8), wt.Timestamp(c13Now), wt.Timestamp(c13Now))
 				vrt.Point("hold", nil)
 				ivs[i].closeCall = vrt.Step()
 				db.Close()
@@ -326,6 +332,63 @@ func c13Scenarios(c *fw.Ctx) []*Scenario {
 		}
 		return []func(){create, open}, judge
 	}}
+	// S6: the reader goes through the commands' read path (view; shared by copy's source side, sum and the server):
+	// it too must see a session boundary
+	cmdReader := &Scenario{Name: "S6-writer-vs-view-command", Bound: -1, Make: func() ([]func(), func(*vrt.Sched) (string, string, string)) {
+		vrt.SetPagesize(16)
+		os.WriteFile(path, initial, 0644)
+		outp := filepath.Join(c.Dir, "c13view.txt")
+		os.Remove(outp)
+		var werr, rerr string
+		writer := func() {
+			db, err := wt.Open(path)
+			if err != nil {
+				werr = err.Error()
+				return
+			}
+			defer db.Close()
+			db.UpdatePointForArchive(0, wt.Timestamp(c13Now), 7, wt.Timestamp(c13Now))
+			db.UpdatePointForArchive(2, wt.Timestamp(c13Now), 7, wt.Timestamp(c13Now))
+			if err := db.Sync(); err != nil {
+				werr = err.Error()
+			}
+		}
+		reader := func() {
+			cmd := &wcmd.ViewCommand{SrcBase: filepath.Dir(path), SrcRelPath: filepath.Base(path), ArchiveID: -1, ShowHeader: false, TextOut: outp}
+			err, pn := RunCommand(c13Now, cmd)
+			hmu.Lock()
+			if err != nil || pn != "" {
+				rerr = fmt.Sprint(err, firstLine(pn))
+			}
+			hmu.Unlock()
+		}
+		judge := func(s *vrt.Sched) (string, string, string) {
+			if s.Deadlock || len(s.Panics) > 0 || s.Diverged != "" {
+				return "", "", "aborted"
+			}
+			if werr != "" || rerr != "" {
+				return "C13/S6/session-failed", werr + rerr, "error"
+			}
+			_, pts, _, bad := SplitOutput(readAndRemove(outp))
+			if bad != "" {
+				return "C13/S6/output", bad, "error"
+			}
+			a0, a2 := -1.0, -1.0
+			for _, p := range pts {
+				if p.Arch == 0 && p.T == c13Now {
+					a0 = p.V
+				}
+				if p.Arch == 2 && p.T == c13Now-c13Now%8 {
+					a2 = p.V
+				}
+			}
+			if a0 != a2 {
+				return "C13/S6/mixed-snapshot", fmt.Sprintf("view printed generation %v for archive 0 and %v for archive 2: pages from before and after a Sync", a0, a2), fmt.Sprint(a0, a2)
+			}
+			return "", "", fmt.Sprint(a0, a2)
+		}
+		return []func(){writer, reader}, judge
+	}}
 	b2, b3 := -1, 2 // two-thread scenarios: every interleaving; three threads: preemption bound
 	if c.Thorough() {
 		b2, b3 = -1, 4
@@ -339,6 +402,7 @@ func c13Scenarios(c *fw.Ctx) []*Scenario {
 		snapshot(b3-1, true, "S2-two-writers-reader"),
 		lifetime,
 		creator,
+		cmdReader,
 	}
 }
 
